@@ -233,9 +233,7 @@ theorem Once.openRound {new : List Nat} (e : EP) (r : OpenReq)
       have s1 : Once new e { e with opens := { r with retriesLeft := r.retriesLeft - 1 } :: e.opens.filter (·.req ≠ r.req) } [] :=
         Once.replace e { r with retriesLeft := r.retriesLeft - 1 } hin
       split
-      · have s2 := Once.answer (new := []) { e with opens := { r with retriesLeft := r.retriesLeft - 1 } :: e.opens.filter (·.req ≠ r.req) }
-          r.req .closed (Or.inl (by simp))
-        exact (s1.trans s2).congr rfl rfl
+      · exact (Once.answer e r.req .closed hin).congr rfl (pend_eq rfl rfl)
       · exact s1.congr rfl (pend_eq (by simp) (by simp))
 
 theorem Once.openRejected (e : EP) (req : Nat) (final : Bool) :
@@ -538,13 +536,7 @@ theorem openRound_keeps_others (e : EP) (r : OpenReq) (x : Nat) (hx : x ≠ r.re
     · exact hf
     · simp only
       split
-      · simp only [List.filter_cons]
-        split
-        · exact List.mem_map.mpr (by
-            obtain ⟨y, hy, hyx⟩ := List.mem_map.mp hf
-            exact ⟨y, List.mem_cons_of_mem _ (List.mem_filter.mpr ⟨hy, (List.mem_filter.mp hy).2⟩), hyx⟩)
-        · obtain ⟨y, hy, hyx⟩ := List.mem_map.mp hf
-          exact List.mem_map.mpr ⟨y, List.mem_filter.mpr ⟨hy, (List.mem_filter.mp hy).2⟩, hyx⟩
+      · exact hf
       · simp only [enqFrame_opens, List.map_cons]
         exact List.mem_cons_of_mem _ hf
 
